@@ -300,3 +300,50 @@ Proof.
   destruct (take_N n d) as [[t rest] missing]. destruct rest; [|cbn; discriminate].
   destruct (missing =? 0)%N; cbn [snd]; [exact P|]. destruct e; try discriminate; try contradiction.
 Qed.
+
+(* ====================================================================== *)
+(* an HTTP/3 stream that ends inside a DATA frame is never complete       *)
+(* ====================================================================== *)
+
+Lemma h3_cut_none parts declared partial :
+  (N.of_nat (length partial) < declared)%N ->
+  h3_read true None (h3_events_cut parts declared partial) = (concat parts ++ partial, H3UnexpectedEOF).
+Proof.
+  intros H. unfold h3_events_cut. induction parts as [|p ps IH].
+  - cbn [map app h3_read concat]. destruct (N.ltb_spec (N.of_nat (length partial)) declared); [reflexivity|lia].
+  - cbn [map app h3_read concat]. rewrite N.ltb_irrefl, IH. now rewrite app_assoc.
+Qed.
+
+Lemma h3_cut_some parts declared partial : forall m,
+  (N.of_nat (length partial) < declared)%N ->
+  snd (h3_read true (Some m) (h3_events_cut parts declared partial)) <> H3Clean.
+Proof.
+  unfold h3_events_cut. induction parts as [|p ps IH]; intros m H.
+  - cbn [map app h3_read].
+    destruct (N.eqb_spec declared 0); [lia|].
+    destruct (m <? declared)%N; [destruct (m <=? N.of_nat (length partial))%N; cbn; discriminate|].
+    destruct (N.ltb_spec (N.of_nat (length partial)) declared); [cbn; discriminate|lia].
+  - cbn [map app h3_read].
+    destruct (N.of_nat (length p) =? 0)%N; [now apply IH|].
+    destruct (N.ltb_spec m (N.of_nat (length p))) as [L|L].
+    + destruct (N.leb_spec m (N.of_nat (length p))); [cbn; discriminate|lia].
+    + rewrite N.ltb_irrefl.
+      destruct (h3_read true (Some (m - N.of_nat (length p))%N)
+                  (map (fun p0 => H3Data (N.of_nat (length p0)) p0) ps ++ [H3Data declared partial; H3Fin])) as [d e] eqn:E.
+      cbn [snd]. specialize (IH (m - N.of_nat (length p))%N H). rewrite E in IH. exact IH.
+Qed.
+
+(* For EVERY sequence of complete DATA frames followed by a frame of which only a part arrived
+   before the FIN, with or without a declared Content-Length, and WHENEVER the FIN reached the
+   client (with the last bytes or later - the event sequence is the same): the read ends with
+   an error, never with io.EOF; without a declared length the caller has received exactly the
+   bytes that arrived. *)
+Theorem h3_cut_never_complete parts declared partial rem :
+  (N.of_nat (length partial) < declared)%N ->
+  snd (h3_read true rem (h3_events_cut parts declared partial)) <> H3Clean /\
+  (rem = None -> fst (h3_read true rem (h3_events_cut parts declared partial)) = concat parts ++ partial).
+Proof.
+  intros H. destruct rem as [m|].
+  - split; [now apply h3_cut_some|discriminate].
+  - rewrite h3_cut_none by assumption. split; [discriminate|reflexivity].
+Qed.
